@@ -777,7 +777,7 @@ def decorate_with_checker(func: CallableT) -> CallableT:
                 violation_error = await _assert_preconditions_async(
                     preconditions=preconditions, resolved_kwargs=resolved_kwargs
                 )
-                if violation_error:
+                if violation_error is not None:
                     raise violation_error
 
                 # Capture the snapshots
@@ -804,7 +804,7 @@ def decorate_with_checker(func: CallableT) -> CallableT:
                     violation_error = await _assert_postconditions_async(
                         postconditions=postconditions, resolved_kwargs=resolved_kwargs
                     )
-                    if violation_error:
+                    if violation_error is not None:
                         raise violation_error
 
                 return result
@@ -856,7 +856,7 @@ def decorate_with_checker(func: CallableT) -> CallableT:
                     resolved_kwargs=resolved_kwargs,
                     func=func,
                 )
-                if violation_error:
+                if violation_error is not None:
                     raise violation_error
 
                 # Capture the snapshots
@@ -885,7 +885,7 @@ def decorate_with_checker(func: CallableT) -> CallableT:
                         resolved_kwargs=resolved_kwargs,
                         func=func,
                     )
-                    if violation_error:
+                    if violation_error is not None:
                         raise violation_error
 
                 return result
